@@ -83,7 +83,7 @@ Theorem C02_router_wellformed :
 Proof. exact inv_router_wf. Qed.
 
 (* Deliveries look receivers up in sharded maps.  translator/locklint.py lists, from the CURRENT source, the map accesses
-   that can make a present receiver disappear for an instant: guards alive across an await and non-blocking (try_*)
+   that can make a present receiver disappear for an instant: guards alive across an await and non-blocking (the try_ family)
    lookups, which report a shard that is merely being written as unavailable.  The list must be empty. *)
 Theorem C02_source_no_lossy_map_lookup : NW.Gen.LockLint.guard_across_await = [].
 Proof. reflexivity. Qed.
